@@ -61,12 +61,13 @@ def planOf (l : List (Nat × Act)) : Plan := fun n =>
 
 def bit? (c : Char) : Option Bool := if c = '0' then some false else if c = '1' then some true else none
 
-def mkFS (dest part : Option Inode) (umask : Nat) : FS :=
+/-- inode table: [dest?] ++ [part?] ++ [the environment's unlinked inode]; returns the latter's index -/
+def mkFS (dest part : Option Inode) (umask : Nat) : FS × Nat :=
   match dest, part with
-  | none, none => ⟨[], ⟨none, none⟩, [], none, umask⟩
-  | some d, none => ⟨[d], ⟨some 0, none⟩, [], none, umask⟩
-  | none, some p => ⟨[p], ⟨none, some 0⟩, [], none, umask⟩
-  | some d, some p => ⟨[d, p], ⟨some 0, some 1⟩, [], none, umask⟩
+  | none, none => (⟨[envInode], ⟨none, none⟩, [], none, umask⟩, 0)
+  | some d, none => (⟨[d, envInode], ⟨some 0, none⟩, [], none, umask⟩, 1)
+  | none, some p => (⟨[p, envInode], ⟨none, some 0⟩, [], none, umask⟩, 1)
+  | some d, some p => (⟨[d, p, envInode], ⟨some 0, some 1⟩, [], none, umask⟩, 2)
 
 def showFile (fs : FS) (o : Option Nat) : String :=
   match fs.inode? o with
@@ -90,8 +91,9 @@ def handle (line : String) : String :=
     | [some ow, some owp, some rm, some txt], some perms, some umask, some dest, some part,
       [some raises], some writes, some plan =>
       let cfg : Cfg := ⟨ow, owp, rm, txt, perms⟩
-      let r := runSave cfg ⟨writes, raises⟩ (planOf plan) (mkFS dest part umask)
-      let r2 := runSave cfg ⟨writes, false⟩ noFaults r.2.fs
+      let (fs0, e) := mkFS dest part umask
+      let r := runSave cfg ⟨writes, raises⟩ (planOf plan) fs0 e
+      let r2 := runSave cfg ⟨writes, false⟩ noFaults r.2.fs e
       s!"{showRes r} | {showRes r2}"
     | _, _, _, _, _, _, _, _ => "bad-op"
   | _ => "bad-op"
